@@ -720,6 +720,10 @@ impl<'a> Iterator for TargetIter<'a, AnnotationDataSet> {
             if let Some(selectoritem) = selectoritem {
                 match selectoritem.as_ref() {
                     Selector::DataSetSelector(set_id) => {
+                        if self.history.contains(set_id) {
+                            continue; //no duplicates
+                        }
+                        self.history.push(*set_id);
                         return Some(*set_id);
                     }
                     _ => continue,
